@@ -157,7 +157,7 @@ Proof.
       cbn [fst snd] in *.
       destruct Hn as [Hn|Hn]; [left; rewrite !in_app_iff; right; right; right; right; rewrite in_app_iff; auto|].
       destruct IH as [H|H]; [left; rewrite !in_app_iff; right; right; right; right; rewrite in_app_iff; auto|].
-      right. intros He. apply H. cbn. apply Hn. exact He.
+      right. intros He. apply H. specialize (Hn He). rewrite Hn. cbn. exact Hn.
     + specialize (IH (done sh m)).
       destruct (run_actions sh nested r (done sh m)) as [m' e]. cbn [fst snd].
       left. rewrite in_app_iff. right. left. reflexivity.
